@@ -20,14 +20,23 @@ Inductive status := Live | Rec | Tomb (a : N) | Gone.
 (* One tracked entry. [elm] = LastModifiedCid.ts (only meaningful while recycled),
    [erec] = history variable: txn time of the delete that recycled it (written only by delete). *)
 Record ent := mkent {
-  eid : N; edep : bool; est : status; elm : N; erec : N;
-  emember : list N; erdmo : list N; erefers : option N; ecasc : option N }.
+  eid : N; ekind : N; est : status; elm : N; erec : N;
+  emember : list N; erdmo : list N; erefers : option N; ecasc : option N;
+  edmo : list N (* stored DirectMemberOf, as last written by the memberof plugin *) }.
+
+(* ekind: 0 person, 1 group, 2 dependent (ClientCertificate: Refers is a MUST attribute) *)
+Definition edep (e : ent) : bool := ekind e =? 2.
 
 Record state := mkst { now : N; ents : list ent }.
 
 Definition is_live (s : status) : bool := match s with Live => true | _ => false end.
 Definition is_rec (s : status) : bool := match s with Rec => true | _ => false end.
 Definition memN (x : N) (l : list N) : bool := existsb (N.eqb x) l.
+Fixpoint nodupb (l : list N) : bool :=
+  match l with
+  | [] => true
+  | x :: r => negb (memN x r) && nodupb r
+  end.
 Definition opt_is (o : option N) (x : N) : bool := match o with Some y => y =? x | None => false end.
 Definition is_some (o : option N) : bool := match o with Some _ => true | None => false end.
 
@@ -35,7 +44,8 @@ Definition is_some (o : option N) : bool := match o with Some _ => true | None =
 Definition live_id (es : list ent) (g : N) : bool := existsb (fun e => (eid e =? g) && is_live (est e)) es.
 Definition rec_id (es : list ent) (g : N) : bool := existsb (fun e => (eid e =? g) && is_rec (est e)) es.
 
-(* DirectMemberOf of y as maintained by the memberof plugin: live groups listing y as member *)
+(* what memberof computes when it recomputes DirectMemberOf of y: live groups listing y as member
+   (exact for flat group populations; nested groups would also need the transitive MemberOf) *)
 Definition dmo (es : list ent) (y : N) : list N :=
   map eid (filter (fun g => is_live (est g) && memN y (emember g)) es).
 
@@ -51,7 +61,7 @@ Definition in_dels (x : N) (e : ent) : bool :=
   is_live (est e) && ((eid e =? x) || opt_is (erefers e) x).
 
 Definition set_recycled (t : N) (dm : list N) (c : option N) (e : ent) : ent :=
-  mkent (eid e) (edep e) Rec t t (emember e) dm (erefers e) c.
+  mkent (eid e) (ekind e) Rec t t (emember e) dm (erefers e) c [].
 
 (* refint::remove_references: every reference attribute of every entry loses the deleted uuids;
    a changed entry gets LastModifiedCid = txn cid (Member, RecycledDirectMemberOf, Refers are replicated) *)
@@ -61,18 +71,31 @@ Definition touches (ds : list N) (e : ent) : bool :=
   || match erefers e with Some y => memN y ds | None => false end.
 Definition strip (ds : list N) (t : N) (e : ent) : ent :=
   if touches ds e then
-    mkent (eid e) (edep e) (est e) t (erec e) (rm ds (emember e)) (rm ds (erdmo e))
+    mkent (eid e) (ekind e) (est e) t (erec e) (rm ds (emember e)) (rm ds (erdmo e))
           (match erefers e with Some y => if memN y ds then None else Some y | None => None end) (ecasc e)
-  else e.
+          (rm ds (edmo e))
+  else (* DirectMemberOf is not replicated: no LastModifiedCid change *)
+    mkent (eid e) (ekind e) (est e) (elm e) (erec e) (emember e) (erdmo e) (erefers e) (ecasc e)
+          (rm ds (edmo e)).
 
 Definition del_upd (es : list ent) (x t : N) (ds : list N) (e : ent) : ent :=
   strip ds t (if in_dels x e
-              then set_recycled t (dmo es (eid e)) (if opt_is (erefers e) x then Some x else ecasc e) e
+              then set_recycled t (edmo e) (if opt_is (erefers e) x then Some x else ecasc e) e
               else e).
+
+(* memberof::post_delete: the members of every deleted GROUP (as listed before refint ran) that
+   are still live get DirectMemberOf recomputed from the live groups *)
+Definition set_dmo (d : list N) (e : ent) : ent :=
+  mkent (eid e) (ekind e) (est e) (elm e) (erec e) (emember e) (erdmo e) (erefers e) (ecasc e) d.
+Definition recompute (es : list ent) (aff : list N) (e : ent) : ent :=
+  if is_live (est e) && memN (eid e) aff then set_dmo (dmo es (eid e)) e else e.
 
 Definition do_delete (es : list ent) (x t : N) : option (list ent) :=
   if live_id es x then
-    let ds := map eid (filter (in_dels x) es) in Some (map (del_upd es x t ds) es)
+    let ds := map eid (filter (in_dels x) es) in
+    let aff := flat_map emember (filter (fun e => in_dels x e && (ekind e =? 1)) es) in
+    let es1 := map (del_upd es x t ds) es in
+    Some (map (recompute es1 aff) es1)
   else None.
 
 (* ------------------------------------------------------------------ revive *)
@@ -81,7 +104,7 @@ Definition in_revs (x : N) (e : ent) : bool :=
 Definition refers' (e : ent) : option N :=
   match ecasc e with Some u => Some u | None => erefers e end.
 Definition set_revived (t : N) (e : ent) : ent :=
-  mkent (eid e) (edep e) Live t (erec e) (emember e) [] (refers' e) None.
+  mkent (eid e) (ekind e) Live t (erec e) (emember e) [] (refers' e) None (edmo e).
 Definition rev1 (x t : N) (e : ent) : ent := if in_revs x e then set_revived t e else e.
 (* revived entries whose stash names group g *)
 Definition adds (es : list ent) (x g : N) : list N :=
@@ -90,8 +113,8 @@ Definition add_members (es : list ent) (x t : N) (e : ent) : ent :=
   if is_live (est e) then
     match adds es x (eid e) with
     | [] => e
-    | l => mkent (eid e) (edep e) (est e) t (erec e) (fold_right ins (emember e) l)
-                 (erdmo e) (erefers e) (ecasc e)
+    | l => mkent (eid e) (ekind e) (est e) t (erec e) (fold_right ins (emember e) l)
+                 (erdmo e) (erefers e) (ecasc e) (edmo e)
     end
   else e.
 
@@ -107,15 +130,25 @@ Definition do_revive (es : list ent) (x t : N) : list ent + N :=
     if negb (forallb (fun e => implb (in_revs x e)
                          (match ecasc e with Some u => live_id es1 u | None => true end)) es) then inr 3
     else if negb (forallb (fun e => implb (in_revs x e) (forallb (live_id es1) (erdmo e))) es) then inr 5
-    else inl (map (add_members es x t) es1).
+    else
+      (* memberof::post_modify: only the revived entries themselves (and, for each stashed group,
+         the group and the re-added member) are recomputed; the MEMBERS of a revived group are
+         not, because its Member set did not change *)
+      let es2 := map (add_members es x t) es1 in
+      (* a revived PERSON's stash also names the built-in dynamic groups idm_all_persons /
+         idm_all_accounts (not tracked here); re-adding it there makes dyngroup re-evaluate the
+         group and memberof recompute every live person *)
+      let persons := if existsb (fun e => in_revs x e && (ekind e =? 0)) es
+                     then map eid (filter (fun e => ekind e =? 0) es) else [] in
+      inl (map (recompute es2 (map eid (filter (in_revs x) es) ++ persons)) es2).
 
 (* ------------------------------------------------------------------ purges *)
 Definition set_tomb (t : N) (e : ent) : ent :=
-  mkent (eid e) (edep e) (Tomb t) t (erec e) [] [] None None.
+  mkent (eid e) (ekind e) (Tomb t) t (erec e) [] [] None None [].
 Definition purge_rec_upd (R t : N) (e : ent) : ent :=
   if is_rec (est e) && (elm e <? t - R) then set_tomb t e else e.
 Definition set_gone (e : ent) : ent :=
-  mkent (eid e) (edep e) Gone (elm e) (erec e) [] [] None None.
+  mkent (eid e) (ekind e) Gone (elm e) (erec e) [] [] None None [].
 Definition purge_tomb_upd (C t : N) (e : ent) : ent :=
   match est e with
   | Tomb a => if a <? t - C then set_gone e else e
@@ -152,25 +185,48 @@ Fixpoint run (R C : N) (s : state) (l : list (op * N)) : state :=
   | (o, t) :: r => run R C (fst (step R C s o t)) r
   end.
 
+(* ------------------------------------------------------------------ the stash of a delete *)
+(* stored DirectMemberOf names every live group that lists the (live) entry as a member *)
+Definition dmo_consb (es : list ent) : bool :=
+  forallb (fun e => implb (is_live (est e))
+     (forallb (fun g => implb (is_live (est g) && memN (eid e) (emember g)) (memN (eid g) (edmo e))) es)) es.
+(* the RecycledDirectMemberOf stash of every entry recycled by pre -> post names every group that was
+   live and listed it as a member, unless that group is itself no longer live afterwards *)
+Fixpoint stash_walk (pre post es es' : list ent) : bool :=
+  match es, es' with
+  | [], [] => true
+  | e :: r, e' :: r' =>
+      implb (is_live (est e) && is_rec (est e'))
+        (forallb (fun g => implb (is_live (est g) && memN (eid e) (emember g))
+                                 (memN (eid g) (erdmo e') || negb (live_id post (eid g)))) pre)
+      && stash_walk pre post r r'
+  | _, _ => false
+  end.
+Definition stash_completeb (pre post : list ent) : bool := stash_walk pre post pre post.
+(* a freshly created population: everything live, unique ids, consistent DirectMemberOf *)
+Definition fresh (s : state) : bool :=
+  forallb (fun e => is_live (est e)) (ents s) && nodupb (map eid (ents s)) && dmo_consb (ents s).
+
 (* ------------------------------------------------------------------ correspondence *)
 (* what the harness reads back from the real server for one tracked entry *)
 Record oent := mkoent {
-  oid : N; odep : bool; ost : status; olm : N;
+  oid : N; okind : N; ost : status; olm : N;
   omember : list N; ordmo : list N; orefers : option N; ocasc : option N;
   odmo : list N;
   ovis : bool;     (* internal_search(filter!(uuid))      non-empty *)
   orvis : bool;    (* internal_search(filter_rec!(uuid))  non-empty *)
-  oavis : bool;    (* access-controlled search as `admin`, normal filter, non-empty *)
+  oavis : bool;    (* access-controlled search as `admin`, normal filter, non-empty; with the built-in
+                      access profiles `admin` may search groups but not persons / certificates *)
   oarvis : bool }. (* access-controlled search as `admin` (recycle bin admin), recycled filter, non-empty *)
 
-Definition abs (es : list ent) (e : ent) : oent :=
-  mkoent (eid e) (edep e) (est e) (if is_rec (est e) then elm e else 0)
+Definition abs (e : ent) : oent :=
+  mkoent (eid e) (ekind e) (est e) (if is_rec (est e) then elm e else 0)
          (emember e) (erdmo e) (erefers e) (ecasc e)
-         (if is_live (est e) then dmo es (eid e) else [])
-         (is_live (est e)) (is_rec (est e)) (is_live (est e)) (is_rec (est e)).
-Definition absS (s : state) : list oent := map (abs (ents s)) (ents s).
+         (edmo e)
+         (is_live (est e)) (is_rec (est e)) (is_live (est e) && (ekind e =? 1)) (is_rec (est e)).
+Definition absS (s : state) : list oent := map abs (ents s).
 Definition of_obs (o : oent) : ent :=
-  mkent (oid o) (odep o) (ost o) (olm o) (olm o) (omember o) (ordmo o) (orefers o) (ocasc o).
+  mkent (oid o) (okind o) (ost o) (olm o) (olm o) (omember o) (ordmo o) (orefers o) (ocasc o) (odmo o).
 
 Inductive ostep := OStep (o : op) (t cid code : N) (post : list oent).
 Inductive case := CHist (R C now0 : N) (init : list oent) (steps : list ostep).
@@ -194,7 +250,7 @@ Definition optN_eqb (a b : option N) : bool :=
   | _, _ => false
   end.
 Definition oent_eqb (a b : oent) : bool :=
-  (oid a =? oid b) && Bool.eqb (odep a) (odep b) && status_eqb (ost a) (ost b) && (olm a =? olm b)
+  (oid a =? oid b) && (okind a =? okind b) && status_eqb (ost a) (ost b) && (olm a =? olm b)
   && listN_eqb (omember a) (omember b) && listN_eqb (ordmo a) (ordmo b)
   && optN_eqb (orefers a) (orefers b) && optN_eqb (ocasc a) (ocasc b)
   && listN_eqb (odmo a) (odmo b)
@@ -210,7 +266,8 @@ Fixpoint oents_eqb (a b : list oent) : bool :=
 (* the state invariant the bridge needs, checked on the observed initial state:
    a recycled entry was last modified no later than the published cid_max *)
 Definition wfb (s : state) : bool :=
-  forallb (fun e => implb (is_rec (est e)) (elm e <=? now s)) (ents s).
+  nodupb (map eid (ents s))
+  && forallb (fun e => implb (is_rec (est e)) (elm e <=? now s)) (ents s).
 
 Fixpoint run_agree (R C : N) (s : state) (steps : list ostep) : bool :=
   match steps with
@@ -257,14 +314,14 @@ Definition vis_ok (b : oent) : bool :=
   && implb (oavis b) (is_live (ost b)) && Bool.eqb (oarvis b) (is_rec (ost b)).
 
 Definition del_ok (x : N) (post : list oent) (a b : oent) : bool :=
-  implb (oid b =? x) (is_live (ost a) && is_rec (ost b))
+  implb ((oid b =? x) && is_live (ost a)) (is_rec (ost b))
   && implb (is_live (ost a) && opt_is (orefers a) x) (is_rec (ost b) && opt_is (ocasc b) x)
   && implb (is_live (ost a) && is_rec (ost b))
        (forallb (fun g => memN g (ordmo b) || negb (olive post g)) (odmo a)
         && forallb (fun g => memN g (odmo a)) (ordmo b)).
 
 Definition rev_ok (x : N) (post : list oent) (a b : oent) : bool :=
-  implb (oid b =? x) (is_rec (ost a) && is_live (ost b))
+  implb ((oid b =? x) && is_rec (ost a)) (is_live (ost b))
   && implb (is_rec (ost a) && opt_is (ocasc a) x) (is_live (ost b) && opt_is (orefers b) x)
   && implb (is_rec (ost a) && is_live (ost b))
        (forallb (fun g => forallb (fun e => implb ((oid e =? g) && is_live (ost e))
@@ -285,9 +342,14 @@ Fixpoint all2 (f : oent -> oent -> bool) (l1 l2 : list oent) : bool :=
   | _, _ => false
   end.
 
-Definition target_ok (o : op) (ok : bool) (post : list oent) : bool :=
+(* a committed delete had a live target that is now recycled; a committed revive had a recycled
+   target that is now live *)
+Definition target_ok (o : op) (ok : bool) (pre post : list oent) : bool :=
   match o with
-  | ODelete x | ORevive x => implb ok (existsb (fun e => oid e =? x) post)
+  | ODelete x => implb ok (existsb (fun e => (oid e =? x) && is_live (ost e)) pre
+                           && existsb (fun e => (oid e =? x) && is_rec (ost e)) post)
+  | ORevive x => implb ok (existsb (fun e => (oid e =? x) && is_rec (ost e)) pre
+                           && existsb (fun e => (oid e =? x) && is_live (ost e)) post)
   | _ => true
   end.
 
@@ -296,12 +358,46 @@ Fixpoint trace_ok (R C : N) (pre : list oent) (steps : list ostep) : bool :=
   | [] => true
   | OStep o _ cid code post :: r =>
       let ok := code =? 0 in
-      all2 (entry_ok R C o cid ok post) pre post && target_ok o ok post && trace_ok R C post r
+      all2 (entry_ok R C o cid ok post) pre post && target_ok o ok pre post && trace_ok R C post r
   end.
 
-Definition pcheck (c : case) : bool :=
+Definition pcore (c : case) : bool :=
   match c with
   | CHist R C _ init steps => forallb vis_ok init && trace_ok R C init steps
   end.
 
-Definition known (_ : case) : bool := false.
+(* the stash taken by a delete names EVERY live group that lists the entry as a member
+   (judged on the groups' own Member lists, not on the entry's stored DirectMemberOf) *)
+Definition stash_strict (pre post : list oent) (a b : oent) : bool :=
+  implb (is_live (ost a) && is_rec (ost b))
+    (forallb (fun g => implb (is_live (ost g) && memN (oid a) (omember g))
+                             (memN (oid g) (ordmo b) || negb (olive post (oid g)))) pre).
+Fixpoint trace_strict (pre : list oent) (steps : list ostep) : bool :=
+  match steps with
+  | [] => true
+  | OStep o _ _ code post :: r =>
+      (match o with
+       | ODelete _ => implb (code =? 0) (all2 (stash_strict pre post) pre post)
+       | _ => true
+       end) && trace_strict post r
+  end.
+
+Definition pcheck (c : case) : bool :=
+  pcore c && match c with CHist _ _ _ init steps => trace_strict init steps end.
+
+(* Known-finding class (see Props.C26_refuted): the history contains a committed revive of a
+   GROUP that has members.  memberof does not recompute DirectMemberOf of those members, so a
+   later delete of such a member stashes an incomplete RecycledDirectMemberOf and its revive does
+   not put it back into the group.  Everything else (pcore) must still hold. *)
+Fixpoint has_group_revive (pre : list oent) (steps : list ostep) : bool :=
+  match steps with
+  | [] => false
+  | OStep o _ _ code post :: r =>
+      (match o with
+       | ORevive x => (code =? 0) && existsb (fun e => (oid e =? x) && (okind e =? 1)
+                                                       && negb (listN_eqb (omember e) [])) pre
+       | _ => false
+       end) || has_group_revive post r
+  end.
+Definition known (c : case) : bool :=
+  pcore c && match c with CHist _ _ _ init steps => has_group_revive init steps end.
